@@ -222,8 +222,9 @@ def correspondence(ctx):
             W.coverage(h['world'], d)
             if d['running_target_effects_applied'] or d['running_buff_effects']:
                 rep.nontrivial.add(('applied', pname, seed))
-    F.histories(ctx, rep, ['noswitch-projected', 'fleet', 'three-fits-decimal'], ctx.n(50, 1000), 'corr',
-                on_history=on_history)
+    k = ctx.n(1, 20)
+    n = {'projheavy': 90 * k, 'fleet': 50 * k, 'three-fits-decimal': 25 * k}
+    F.histories(ctx, rep, list(n), n, 'corr', on_history=on_history, promote_l1=True)
 
 
 def oracle(ctx):
